@@ -766,6 +766,17 @@ func poolBufferOrigin(p *Prog, v ssa.Value) *ssa.Call {
 		case *ssa.Call:
 			if isCallTo(&x.Call, "(*sync.Pool).Get") {
 				get = x
+				return
+			}
+			// a repository helper that takes the buffer out of the pool and returns it (fromPool[T](pool, err))
+			if sc := x.Call.StaticCallee(); sc != nil && p.InUniverse(sc) && sc.Blocks != nil && d < 20 {
+				for _, b := range sc.Blocks {
+					if ret, ok := b.Instrs[len(b.Instrs)-1].(*ssa.Return); ok {
+						for _, r := range ret.Results {
+							walk(r, d+10)
+						}
+					}
+				}
 			}
 		case *ssa.TypeAssert:
 			walk(x.X, d+1)
@@ -1269,6 +1280,12 @@ func fF4(p *Prog, o *obls, fn *ssa.Function) {
 							return
 						}
 						if f == fn {
+							if _, isAddr := u.(*ssa.FieldAddr); isAddr {
+								return // computing a field's address reads nothing; its loads are judged
+							}
+							if errV != nil && speculativeLoad(p, u, errV) {
+								return
+							}
 							if w := checkUse(u, "parsed object"); w != "" {
 								problems = append(problems, w)
 							}
@@ -1286,6 +1303,83 @@ func fF4(p *Prog, o *obls, fn *ssa.Function) {
 		}
 		o.ok("F4", construct, p.instrPos(call), "every use of the parse result lies on the success branch of its error test")
 	})
+}
+
+// speculativeLoad: u loads a plain field of the parsed object before the error test (`seq := ext.TransportSequence` hoisted
+// above `if err != nil`), and the value loaded only takes effect where the error is known nil: every consumer is an
+// instruction on the success branch, or a φ that receives it on an edge on which the error is nil. Reading a field of a
+// local struct is memory-safe whatever the parser did.
+func speculativeLoad(p *Prog, u ssa.Instruction, errV ssa.Value) bool {
+	ld, ok := u.(*ssa.UnOp)
+	if !ok || ld.Op != token.MUL {
+		return false
+	}
+	if _, ok := ld.X.(*ssa.FieldAddr); !ok {
+		return false
+	}
+	if _, isBasic := ld.Type().Underlying().(*types.Basic); !isBasic {
+		return false
+	}
+	nilOnEdge := func(pred, succ *ssa.BasicBlock) bool {
+		if p.nilnessAt(errV, pred) == -1 {
+			return true
+		}
+		c := ifCond(pred)
+		if c == nil || len(pred.Succs) != 2 || pred.Succs[0] == pred.Succs[1] {
+			return false
+		}
+		ef := normFact(condFact{c, pred.Succs[0] == succ})
+		bo, ok := ef.cond.(*ssa.BinOp)
+		if !ok || (bo.Op != token.NEQ && bo.Op != token.EQL) {
+			return false
+		}
+		var other ssa.Value
+		if isNilConst(bo.Y) {
+			other = bo.X
+		} else if isNilConst(bo.X) {
+			other = bo.Y
+		} else {
+			return false
+		}
+		return p.origin(other) == p.origin(errV) && (bo.Op == token.NEQ) != ef.truth
+	}
+	seen := map[ssa.Value]bool{}
+	var okVal func(v ssa.Value, d int) bool
+	okVal = func(v ssa.Value, d int) bool {
+		if seen[v] || d > 6 {
+			return true
+		}
+		seen[v] = true
+		if v.Referrers() == nil {
+			return true
+		}
+		for _, r := range *v.Referrers() {
+			switch r := r.(type) {
+			case *ssa.DebugRef:
+			case *ssa.Phi:
+				for i, e := range r.Edges {
+					if e == v && !nilOnEdge(r.Block().Preds[i], r.Block()) {
+						return false
+					}
+				}
+				// the φ itself now carries the value only on success edges: its own consumers are free
+			case *ssa.Convert:
+				if !okVal(r, d+1) {
+					return false
+				}
+			case *ssa.ChangeType:
+				if !okVal(r, d+1) {
+					return false
+				}
+			default:
+				if p.nilnessAt(errV, r.Block()) != -1 {
+					return false
+				}
+			}
+		}
+		return true
+	}
+	return okVal(ld, 0)
 }
 
 // transitiveUsers: instructions using v directly (not through memory).
